@@ -183,6 +183,15 @@ def r1(case, rec):
         if log and abs(exact[e]) > 650:
             rec.label('log-extrapolation under/overflows: not judged')
             continue
+        if not log and abs(exact[e]) <= tol:
+            # the exact value is below the round-off of the sum that forms it (cancellation): the floating-point extrapolation is
+            # round-off noise of either sign and any size up to tol, so whether the 10-decade rule replaces it is not determined -
+            # both the extrapolation (within tol) and the finest-grid value are correct outcomes
+            rec.label('exact value below round-off: either outcome accepted')
+            if not (abs(got[e] - exact[e]) <= tol or abs(got[e] - best[e]) <= 1e-13 * abs(best[e])):
+                raise Violation('k=%d lin: entry %d is %r: neither the exact value %r (within %.3e) nor the finest-grid value %r'
+                                % (k, e, float(got[e]), float(exact[e]), tol, float(best[e])), k=k)
+            continue
         if log:
             decades = abs(exact[e] - math.log(best[e])) / ln10
         elif best[e] != 0 and exact[e] != 0 and exact[e] / best[e] > 0:
